@@ -76,6 +76,11 @@ def gen_params(rng):
             opts["distrust_genotypes"] = True
     if rng.random() < 0.5:
         opts["read_list"] = True
+    if not ped and rng.random() < 0.25:
+        # the input already carries phase (from "another tool"), also on records the writer skips
+        opts["prephase"] = rng.choice(["PS", "HP"])
+        if rng.random() < 0.4:
+            opts["only_snvs"] = True
     return p, opts
 
 
@@ -84,7 +89,12 @@ def run_one(rng, counters):
     try:
         p, opts = gen_params(rng)
         sim = genome.simulate(rng, tmp, p)
-        ro = {k: v for k, v in opts.items() if k not in ("ped", "read_list")}
+        if opts.get("prephase"):
+            from wv.gen import vcf as gvcf
+
+            gvcf.hostilize(rng, sim.doc, prephase=opts["prephase"], allow_missing=False)
+            sim.doc.write(sim.vcf)
+        ro = {k: v for k, v in opts.items() if k not in ("ped", "read_list", "prephase")}
         if ro["reference"] == "FASTA":
             ro["reference"] = sim.fasta
         if opts.get("ped"):
